@@ -10,13 +10,29 @@ from checks import c06
 
 LEVEL = c06.LEVEL
 RULE = c06.RULE + ("; C07 reads the answer-matching clauses: identifiers from the boundary alphabet "
-                   "{0, 1, 0x7fffffff, 0x80000000, 0xffffffff} rotate over the requests of a history")
+                   "{0, 1, 0x7fffffff, 0x80000000, 0xffffffff} rotate over the requests of a history; plus a schedule "
+                   "exploration (d <= 1, thorough one scenario at d <= 2) of two node objects with the same local identity "
+                   "that receive a DWR / a DPR each at the same moment: every connection carries exactly the answer to its "
+                   "own request")
 ASSUMPTIONS = c06.ASSUMPTIONS
 
 
 def run(report, tier, seed):
-    return c06.run_for(report, tier, seed, "C07")
+    from vk import core
+    from checks import c07_two
+    extra = c06.run_for(report, tier, seed, "C07")
+    # two node objects in one process, base requests on both connections at once (schedule explorer)
+    core.run_shards(report, c07_two.shard, c07_two.shards(tier), shard_timeout=3000)
+    lk = extra["_level_keys"]
+    c = report.counters
+    lk["states"] += c.get("two_node_executions", 0)
+    lk["transitions"] += c.get("two_node_points", 0)
+    lk["traces_validated_against_impl"] += c.get("two_node_executions", 0)
+    return extra
 
 
 def replay(w):
+    if w.get("scenario") == "two-nodes":
+        from checks import c07_two
+        return c07_two.replay(w)
     return c06.replay(w)
